@@ -97,3 +97,22 @@ Proof.
     exact (respelled_prefix fs _ _ _ _ _ d r1 r2 H1 H2 H3 H4). }
   unfold contains, member. rewrite H3, H4, E. split; reflexivity.
 Qed.
+
+(* ---------- fuel: never exhausted when no link is involved ---------- *)
+Lemma rp_total_nolinks fs : (forall p t, lookup fs p <> Some (KLink t)) ->
+  forall todo f acc, length todo < f -> exists r, rp f fs acc todo = Ok r.
+Proof.
+  intros Hn. induction todo as [|c t IH]; intros f acc Hf; (destruct f as [|f]; [cbn in Hf; lia|]).
+  - exists (rev acc). reflexivity.
+  - cbn [rp]. assert (length t < f) as Hf' by (cbn in Hf; lia).
+    destruct (String.eqb c ""%string || String.eqb c "."%string); [apply IH; assumption|].
+    destruct (String.eqb c ".."%string); [apply IH; assumption|].
+    destruct (lookup fs (rev (c :: acc))) as [[| |tgt]|] eqn:E; try (apply IH; assumption).
+    exfalso. exact (Hn _ _ E).
+Qed.
+
+Theorem resolve_total_nolinks fs cwd s :
+  (forall p t, lookup fs p <> Some (KLink t)) -> exists r, resolve fs cwd s = Ok r.
+Proof.
+  intros Hn. unfold resolve, resolve_comps. apply rp_total_nolinks; [assumption|lia].
+Qed.
